@@ -120,7 +120,7 @@ class QueriesLeg(object):
                                    "seqid": a["seqid"], "within": w, "strand": None, "featuretype": None, "fstrand": "+"})
                         qs.append({"kind": "limit", "form": "tuple", "method": "all_features", "start": max(1, a["start"] - margin),
                                    "end": a["end"] + margin, "seqid": a["seqid"], "within": w, "strand": None, "featuretype": None})
-            return {"features": feats, "queries": qs, "added": added, "move": draw(st.booleans()),
+            return {"features": feats, "queries": qs, "added": added, "move": draw(st.booleans()), "via_interfeatures": draw(st.booleans()),
                     "shift": draw(st.sampled_from([0, 0, 0, 1 << 17, (1 << 20) + 5, 131070]))}
 
         return case()
@@ -262,7 +262,24 @@ class QueriesLeg(object):
                     new_feats.append(dict(f, id=fid, parent=True))
                 lines2 = ["\t".join([f["seqid"], "src", f["ft"], str(f["start"]), str(f["end"]), ".", f["strand"], ".", "ID=%s;Parent=f0" % f["id"]])
                           for f in new_feats]
-                db.update([feature_from_line(l) for l in lines2], make_backup=False)
+                objs = [feature_from_line(l) for l in lines2]
+                if case.get("via_interfeatures"):
+                    # the same features, derived as the space between two flanking Features and written back
+                    from gffutils.feature import Feature
+
+                    for j, f in enumerate(new_feats):
+                        if f["start"] < 3:
+                            continue
+                        left = Feature(seqid=f["seqid"], source="src", featuretype="exon", start=max(1, f["start"] - 9), end=f["start"] - 1,
+                                       strand=f["strand"], attributes={"ID": ["L%d" % j]})
+                        right = Feature(seqid=f["seqid"], source="src", featuretype="exon", start=f["end"] + 1, end=f["end"] + 9,
+                                        strand=f["strand"], attributes={"ID": ["R%d" % j]})
+                        made = list(db.interfeatures([left, right], new_featuretype=f["ft"], merge_attributes=False,
+                                                     update_attributes={"ID": [f["id"]], "Parent": ["f0"]}))
+                        if len(made) == 1:
+                            objs[j] = made[0]
+                            ctx.count("features added as interfeatures")
+                db.update(objs, make_backup=False)
                 feats = feats + new_feats
                 if case.get("move") and len(feats) >= 2:
                     # add_relation() re-writes the feature its child_func returns: f1 moves to a new place
